@@ -29,6 +29,7 @@ MODULES = {
     'C19': ['contracts.c19'],
     'C16': ['contracts.c16'],
     'C13': ['contracts.c13'],
+    'C10': ['contracts.c10'],
 }
 
 EXTRACTION_DROPS = ['docstrings', 'type annotations', 'typing.cast (identity)', 'with torch.no_grad() (body kept)',
@@ -54,13 +55,13 @@ def _concrete_worker(args):
         return dict(status=f'engine-error: {type(e).__name__}: {e}', ensures=[], observations={}, exception=None)
 
 
-def native_batch(tasks, timeout=900):
+def native_batch(tasks, timeout=900, dtype='float64'):
     if not tasks:
         return []
     with tempfile.TemporaryDirectory() as d:
         fi, fo = os.path.join(d, 'tasks.json'), os.path.join(d, 'out.json')
         json.dump(tasks, open(fi, 'w'))
-        env = dict(os.environ, PYTHONPATH=VERIF, OMP_NUM_THREADS='1', MKL_NUM_THREADS='1')
+        env = dict(os.environ, PYTHONPATH=VERIF, OMP_NUM_THREADS='1', MKL_NUM_THREADS='1', PYVC_NATIVE_DTYPE=dtype)
         r = subprocess.run([NATIVE_PY, '-m', 'pyvc.native', fi, fo], capture_output=True, text=True, env=env, timeout=timeout,
                            cwd=VERIF)
         if r.returncode != 0 or not os.path.exists(fo):
@@ -194,25 +195,38 @@ def main(argv=None):
             native_res = [None] * len(reps)
     else:
         native_res = [None] * len(reps)
+    def _verdict(o, nr):
+        if nr is None:
+            return 'no-replay'
+        failing = [n for n, ok in nr['ensures'] if not ok]
+        if o['name'] in failing:
+            return 'reproduced'
+        if o['name'].startswith('harness:no-unexpected-exception') and nr.get('exception'):
+            return 'reproduced'
+        if o['kind'] == 'safety' and (nr.get('exception') or failing):
+            return 'reproduced'
+        if nr['status'] == 'assume-failed':
+            return 'model-violates-precondition-natively'
+        if nr.get('exception'):
+            return 'native-exception:' + str(nr.get('exception'))
+        return 'not-reproduced'
+    # the replay runs in float64 first (closest to the reals of the proof); what does not reproduce there is replayed in the
+    # library's default float32 arithmetic (defects that only exist at single precision, e.g. comparisons with finfo.eps)
+    retry = [i for i, (o, nr) in enumerate(zip(reps, native_res)) if nr is not None and _verdict(o, nr) != 'reproduced']
+    if retry and not args.no_native:
+        try:
+            res32 = native_batch([tasks[i] for i in retry], dtype='float32')
+            for i, nr in zip(retry, res32):
+                if _verdict(reps[i], nr) == 'reproduced':
+                    nr['arithmetic'] = 'float32'
+                    native_res[i] = nr
+        except Exception as e:
+            engine_errors.append(f'native float32 replay failed: {e}')
     for o, nr in zip(reps, native_res):
         k = known_match(known, o['harness'], o['name'], o['config'])
         h = hashlib.sha1((pid + o['harness'] + o['name'] + json.dumps(o['config'], sort_keys=True)).encode()).hexdigest()[:10]
         path = os.path.join(EVDIR, 'replays', f'{pid}_{h}.json')
-        verdict = 'no-replay'
-        if nr is not None:
-            failing = [n for n, ok in nr['ensures'] if not ok]
-            if o['name'] in failing:
-                verdict = 'reproduced'
-            elif o['name'].startswith('harness:no-unexpected-exception') and nr.get('exception'):
-                verdict = 'reproduced'
-            elif o['kind'] == 'safety' and (nr.get('exception') or failing):
-                verdict = 'reproduced'
-            elif nr['status'] == 'assume-failed':
-                verdict = 'model-violates-precondition-natively'
-            elif nr.get('exception'):
-                verdict = 'native-exception:' + str(nr.get('exception'))
-            else:
-                verdict = 'not-reproduced'
+        verdict = _verdict(o, nr)
         rec = dict(property=pid, obligation=o['name'], kind=o['kind'], harness=o['harness'], module=o['module'], fn=o['fn'],
                    config=o['config'], solver=o['backend'], solver_output='sat (negated obligation satisfiable under the path condition)',
                    model=o['model'], native=nr, verdict=verdict, same_obligation_refuted_in_paths=len(groups[(o['harness'], o['name'], json.dumps(o['config'], sort_keys=True))]),
@@ -229,7 +243,17 @@ def main(argv=None):
             # the real code raises where the clause was expected to be evaluated: the obligation is violated by an exception
             violations.append((o, path, ''))
         else:
-            spurious.append(f"{o['harness']}{json.dumps(o['config'], sort_keys=True)}: {o['name']}: counter-model not confirmed by the real code ({verdict}); see {path}")
+            # The real code satisfies the clause on the (floating-point image of the) counter-model.  Run the interpreter concretely
+            # on the same input: if it disagrees with CPython the engine misrepresents the code (exit 3, no alarm); if it agrees,
+            # the counter-example only exists in exact real arithmetic -> the refuted obligation is reported without a failing input.
+            c = _concrete_worker((dict(module=o['module'], fn=o['fn'], config=o['config']), o['model'] or {}))
+            cfail = [n for n, ok in c.get('ensures', []) if not ok]
+            rec['interpreter_concrete'] = dict(status=c.get('status'), failing=cfail[:10], exception=c.get('exception'))
+            json.dump(rec, open(path, 'w'), indent=1, default=str)
+            if c.get('status', '').startswith(('engine-error', 'unsupported')) or (o['name'] in cfail) or (c.get('exception') and not nr.get('exception')):
+                engine_errors.append(f"{o['harness']}{json.dumps(o['config'], sort_keys=True)}: {o['name']}: interpreter and CPython disagree on the counter-model ({verdict}); see {path}")
+            else:
+                violations.append((o, path, ' no-failing-input-found'))
 
     # ------------------------------------------------------------------ CPython cross-check of the interpreter
     cc = dict(samples=0, agreed=0, mismatches=[], skipped=0)
